@@ -81,6 +81,15 @@ func concretise(draws []interp.Draw, model map[string]string) ([]map[string]inte
 	var out []map[string]interface{}
 	for _, d := range draws {
 		e := map[string]interface{}{"kind": d.Kind, "n": d.N, "val": d.Val}
+		if d.Const != "" {
+			if d.Sort == "str" {
+				e["str"] = d.Const
+			} else {
+				e["bits"] = d.Const
+			}
+		} else if d.Sort == "str" && d.Term == "" {
+			e["str"] = ""
+		}
 		if d.Term != "" {
 			bits := uint64(0)
 			if raw, ok := model[d.Term]; ok {
@@ -103,14 +112,14 @@ func concretise(draws []interp.Draw, model map[string]string) ([]map[string]inte
 					bits = interp.Float64bits(mv.F)
 				case "int":
 					bits = uint64(mv.I)
-					if d.Kind == "f64" && d.N > 0 {
+					if (d.Kind == "f64" || d.Sort == "grid") && d.N > 0 {
 						// exact-grid float: n / 2^g
 						bits = interp.Float64bits(float64(mv.I) / float64(uint64(1)<<uint(d.N-1)))
 					}
 				}
 			}
 			e["bits"] = fmt.Sprint(bits)
-			if d.Kind == "str" {
+			if d.Kind == "str" || d.Sort == "str" {
 				e["str"] = interp.StringForModel(d.Term, model)
 			}
 		}
@@ -375,7 +384,7 @@ func cmdReplay(args []string) int {
 	}
 	parts := strings.SplitN(meta.Harness, ":", 2)
 	rp := &Replay{Dir: dir, Prop: meta.Property, Check: meta.Check, PkgDir: parts[0], Func: parts[1]}
-	res := runReplay(rp)
+	res := runReplayFull(rp)
 	fmt.Print(res.Output)
 	if !res.Ran {
 		fmt.Println("replay did not run:", res.Detail)
